@@ -26,8 +26,82 @@ func c12Expr(x ast.Expr) string {
 		return c12Expr(v.Fun) + "(" + strings.Join(as, ",") + ")"
 	case *ast.UnaryExpr:
 		return v.Op.String() + c12Expr(v.X)
+	case *ast.BinaryExpr:
+		return c12Expr(v.X) + v.Op.String() + c12Expr(v.Y)
+	case *ast.BasicLit:
+		return v.Value
 	}
 	return "?"
+}
+
+// c12Calls lists, in source order, the calls made by the top-level statements of a block: expression
+// statements and single-value assignments / definitions whose right-hand side is a call.
+func c12Calls(list []ast.Stmt) []string {
+	var out []string
+	for _, st := range list {
+		switch v := st.(type) {
+		case *ast.ExprStmt:
+			if c, ok := v.X.(*ast.CallExpr); ok {
+				out = append(out, c12Expr(c))
+			}
+		case *ast.AssignStmt:
+			if len(v.Rhs) == 1 {
+				if c, ok := v.Rhs[0].(*ast.CallExpr); ok {
+					out = append(out, c12Expr(c))
+				}
+			}
+		}
+	}
+	return out
+}
+
+// c12Sweeps renders every writeBECgroupsCPUSet call of a function as "paths-source|value-source|isReversed" with
+// the two first arguments resolved through the function's local `x, err := f(...)` / `x := f(...)` definitions;
+// a call that is not a top-level statement of the function body is rendered with the prefix "nested:".
+func c12Sweeps(fd *ast.FuncDecl) []string {
+	def := map[string]string{}
+	for _, st := range fd.Body.List {
+		if as, ok := st.(*ast.AssignStmt); ok && len(as.Rhs) == 1 && len(as.Lhs) >= 1 {
+			def[c12Expr(as.Lhs[0])] = c12Expr(as.Rhs[0])
+		}
+	}
+	res := func(x ast.Expr) string {
+		s := c12Expr(x)
+		if d, ok := def[s]; ok {
+			return d
+		}
+		return s
+	}
+	top := map[*ast.CallExpr]bool{}
+	for _, st := range fd.Body.List {
+		if es, ok := st.(*ast.ExprStmt); ok {
+			if c, ok := es.X.(*ast.CallExpr); ok {
+				top[c] = true
+			}
+		}
+	}
+	var out []string
+	ast.Inspect(fd.Body, func(n ast.Node) bool {
+		c, ok := n.(*ast.CallExpr)
+		if !ok || c12Expr(c.Fun) != "writeBECgroupsCPUSet" || len(c.Args) != 3 {
+			return true
+		}
+		s := res(c.Args[0]) + "|" + res(c.Args[1]) + "|" + c12Expr(c.Args[2])
+		if !top[c] {
+			s = "nested:" + s
+		}
+		out = append(out, s)
+		return true
+	})
+	return out
+}
+
+func c12StrList(xs []string) string {
+	q := make([]string, len(xs))
+	for i, x := range xs {
+		q[i] = leanStr(x)
+	}
+	return "[" + strings.Join(q, ", ") + "]"
 }
 
 func init() {
@@ -220,6 +294,83 @@ func init() {
 		}
 		fmt.Fprintf(&e.out, "/-- applyCPUSetWithNonePolicy: (writes the merged set?, isReversed) per unconditional sweep -/\n")
 		fmt.Fprintf(&e.out, "def nonePolicySweeps : List (Bool × Bool) := [%s]\n\n", strings.Join(np, ", "))
+		// 5. applyBESuppressCPUSet: early-return guards, the condition of the policy branch, and the calls of
+		//    its two arms in source order; the sweeps of recoverCPUSetIfNeed / applyCPUSetWithStaticPolicy; depths.
+		cs := "pkg/koordlet/qosmanager/plugins/cpusuppress"
+		var guards, thenCalls, elseCalls []string
+		cond := ""
+		if fd := e.funcDecl(cs, "CPUSuppress", "applyBESuppressCPUSet"); fd == nil || fd.Body == nil {
+			e.fail("applyBESuppressCPUSet not found")
+		} else {
+			for _, st := range fd.Body.List {
+				is, ok := st.(*ast.IfStmt)
+				if !ok {
+					continue
+				}
+				if is.Else == nil {
+					if cond == "" && len(is.Body.List) > 0 {
+						if _, ret := is.Body.List[len(is.Body.List)-1].(*ast.ReturnStmt); ret {
+							guards = append(guards, c12Expr(is.Cond)) // guard before the policy branch
+						}
+					}
+					continue
+				}
+				if cond != "" {
+					e.fail("applyBESuppressCPUSet: more than one if/else")
+				}
+				cond = c12Expr(is.Cond)
+				thenCalls = c12Calls(is.Body.List)
+				if eb, ok := is.Else.(*ast.BlockStmt); ok {
+					elseCalls = c12Calls(eb.List)
+				} else {
+					e.fail("applyBESuppressCPUSet: else-if chain")
+				}
+			}
+		}
+		fmt.Fprintf(&e.out, "/-- applyBESuppressCPUSet: returning guards before the policy branch, its condition, calls of the two arms -/\n")
+		fmt.Fprintf(&e.out, "def suppressGuards : List String := %s\n", c12StrList(guards))
+		fmt.Fprintf(&e.out, "def suppressCond : String := %s\n", leanStr(cond))
+		fmt.Fprintf(&e.out, "def suppressStaticCalls : List String := %s\n", c12StrList(thenCalls))
+		fmt.Fprintf(&e.out, "def suppressElseCalls : List String := %s\n\n", c12StrList(elseCalls))
+		for _, fn := range []struct{ name, lean string }{{"recoverCPUSetIfNeed", "recoverSweeps"}, {"applyCPUSetWithStaticPolicy", "staticSweeps"}} {
+			var sw []string
+			firstGuard := ""
+			if fd := e.funcDecl(cs, "CPUSuppress", fn.name); fd == nil || fd.Body == nil {
+				e.fail("%s not found", fn.name)
+			} else {
+				sw = c12Sweeps(fd)
+				if len(fd.Body.List) > 0 {
+					if is, ok := fd.Body.List[0].(*ast.IfStmt); ok {
+						firstGuard = c12Expr(is.Cond)
+					}
+				}
+			}
+			fmt.Fprintf(&e.out, "/-- %s: writeBECgroupsCPUSet calls as paths|value|isReversed -/\n", fn.name)
+			fmt.Fprintf(&e.out, "def %s : List String := %s\n", fn.lean, c12StrList(sw))
+			if fn.name == "applyCPUSetWithStaticPolicy" {
+				fmt.Fprintf(&e.out, "def staticFirstGuard : String := %s\n", leanStr(firstGuard))
+			}
+		}
+		e.constInt("pkg/koordlet/util", "PodCgroupPathRelativeDepth", "podDepthConst")
+		e.constInt("pkg/koordlet/util", "ContainerCgroupPathRelativeDepth", "ctrDepthConst")
+		// GetBECPUSetPathsByMaxDepth keeps `<= absDepth`, GetCgroupPathsByTargetDepth keeps `== absDepth`
+		for _, fn := range []struct{ name, lean string }{{"GetBECPUSetPathsByMaxDepth", "maxDepthCmp"}, {"GetCgroupPathsByTargetDepth", "targetDepthCmp"}} {
+			op := ""
+			if fd := e.funcDecl("pkg/koordlet/util", "", fn.name); fd == nil || fd.Body == nil {
+				e.fail("%s not found", fn.name)
+			} else {
+				ast.Inspect(fd.Body, func(n ast.Node) bool {
+					if b, ok := n.(*ast.BinaryExpr); ok {
+						if id, ok := b.Y.(*ast.Ident); ok && id.Name == "absDepth" {
+							op += b.Op.String()
+						}
+					}
+					return true
+				})
+			}
+			fmt.Fprintf(&e.out, "def %s : String := %s\n", fn.lean, leanStr(op))
+		}
+		fmt.Fprintf(&e.out, "\n")
 		fmt.Fprintf(&e.out, "def mergeWriteCachesWritten : Bool := %v\n", writeOK)
 		fmt.Fprintf(&e.out, "def mergeSkipCachesOld : Bool := %v\n", skipOK)
 	}
